@@ -178,11 +178,17 @@ def redrive(src):
 
 
 MODELS = {"quick": [("EpsPath", "EpsPath_q.cfg", "all eps-graphs on 3 states x all source sets / targets x all pop and "
-                     "edge orders: the back-pointer walk terminates with a genuine path")],
-          "thorough": [("EpsPath", "EpsPath_t.cfg", "all eps-graphs on 4 states")]}
+                     "edge orders: the back-pointer walk terminates with a genuine path"),
+                    ("Derive", "Derive_q.cfg", "cfg_derive_word (tree construction + extraction worklists): every list of <= 3 "
+                     "CNF rules over {S,A,B}/{a,b} in every order x every word <= 3 of the language x both modes: a valid "
+                     "leftmost / rightmost derivation, termination")],
+          "thorough": [("EpsPath", "EpsPath_t.cfg", "all eps-graphs on 4 states"),
+                       ("Derive", "Derive_q.cfg", "rule lists <= 3, words <= 3"),
+                       ("Derive", "Derive_t.cfg", "rule lists <= 4, words <= 4")]}
 RULE = ("NFA(2,{a,b}) and NFA(3,{a}) (strided), random NFAs (epsilon self-loops and cycles frequent), DFA(3,{a,b}) "
         "(strided), the PDA universes of C09 plus three PDAs with deep stacks drained by epsilon pops on words of length "
-        "5-16, CNF grammars (hand-written + random, converted when necessary); every word "
+        "5-16, CNF grammars (hand-written + random, converted when necessary; every recorded derivation is also compared "
+        "with the one DeriveSteps.tla computes - binding); every word "
         "<= 3 (2 for larger alphabets) simulated under 8 (32) PYTHONHASHSEEDs; a call that does not return within 4 s "
         "is a non-termination (at most 8 per task are waited for); derivations leftmost and rightmost for <= 5 "
         "generated words per grammar; non-trivial = the word is accepted and non-empty; distinct = distinct (object, "
